@@ -20,6 +20,11 @@ def main():
         if real != mine:
             print('SETUP FAILED: White_Space table differs from char::is_whitespace: %r vs %r' % (real, mine))
             return 1
+        from .models_typst import TYPST_NEWLINES
+        r = d.call('newline_table')
+        if sorted(int(x, 16) for x in r[1:]) != sorted(TYPST_NEWLINES):
+            print('SETUP FAILED: typst_syntax::is_newline table differs from the contract: %r' % (r[1:],))
+            return 1
         S.cli
         d.close()
     except explore.Inconclusive as e:
